@@ -563,6 +563,9 @@ func (w *worker[T]) runJob(path []Frag, own int) {
 			depth++
 			if !w.visit(depth) {
 				alive = false
+				if w.e.Run.expired() {
+					return
+				}
 			}
 		}
 	}
@@ -728,6 +731,12 @@ func (w *worker[T]) visit(depth int) bool {
 		defer w.hb.end()
 	}
 	e := w.e
+	if e.Run.expired() {
+		// the budget is honoured at every node (a long single path with many distinct suspended states would
+		// otherwise run on for hours): stop here, the run reports exhaustive:false
+		w.st.Exhaustive = false
+		return false
+	}
 	d := e.Drv
 	cfg := &e.Cfg
 	base := cfg.Offs
@@ -773,7 +782,11 @@ func (w *worker[T]) visit(depth int) bool {
 	}
 	// ---- C01/C02: transitions from every suspended ancestor state
 	if e.Or.Schedule || e.Or.Sanity {
-		for _, a := range w.stack {
+		for ai, a := range w.stack {
+			if ai&63 == 63 && e.Run.expired() {
+				w.st.Exhaustive = false
+				break
+			}
 			for _, s := range a.susp {
 				d.copyInto(w.scratch, s.o, &w.store)
 				n2, e2, pm2 := d.safeStep(w.scratch, buf, s.next, cfg)
@@ -876,6 +889,10 @@ func (w *worker[T]) visit(depth int) bool {
 				}
 			}
 			for ai := 0; ai <= len(w.stack); ai++ {
+				if ai&63 == 63 && e.Run.expired() {
+					w.st.Exhaustive = false
+					break
+				}
 				var a *nodeRec[T]
 				if ai < len(w.stack) {
 					a = w.stack[ai]
